@@ -49,25 +49,6 @@ theorem leafOfRepr_values :
     leafOfRepr "None" = .none ∧ leafOfRepr "0.0" = .num 0 ∧ leafOfRepr "False" = .bool false ∧
     leafOfRepr "10" = .int 10 := by decide +kernel
 
-/-- the parser, concretely -/
-def objPs (v2 : Bool) : List (Property XV) :=
-  [ .attr "audioBlockFormatID" "id" (liftCodec stringCodec) true (.leaf .none),
-    .attr "rtime" "rtime" (liftCodec (timeCodec v2)) false (.leaf .none),
-    .attr "duration" "duration" (liftCodec (timeCodec v2)) false (.leaf .none),
-    .genericElement none false positionImpl,
-    .customElement "channelLock" none false channelLockImpl,
-    .customElement "jumpPosition" none false jumpImpl,
-    .customElement "objectDivergence" none false divergenceImpl,
-    .attrElement "width" "width" (liftCodec floatCodec) false (.leaf (.num 0)) false,
-    .attrElement "height" "height" (liftCodec floatCodec) false (.leaf (.num 0)) false,
-    .attrElement "depth" "depth" (liftCodec floatCodec) false (.leaf (.num 0)) false,
-    .attrElement "diffuse" "diffuse" (liftCodec floatCodec) false (.leaf (.num 0)) false,
-    .attrElement "cartesian" "cartesian" (liftCodec boolCodec) false (.leaf (.bool false)) false,
-    .attrElement "screenRef" "screenRef" (liftCodec boolCodec) false (.leaf (.bool false)) false,
-    .customElement "zoneExclusion" (some "zoneExclusion") false zoneImpl,
-    .customElement "gain" none false (gainImpl v2),
-    .attrElement "importance" "importance" (liftCodec intCodec) false (.leaf (.int 10)) false ]
-
 /-- what `ofRowG` builds from the table rows is that parser -/
 theorem objectsProps_eq (v2 : Bool) : objectsProps (objectsRows v2) = objPs v2 := by
   rw [objectsRows_eq]
@@ -420,11 +401,11 @@ theorem objPs_fields (v2 : Bool) (name : String) (b : ObjectsBlock) (hv : Valid 
   · exact ⟨fun x hx => by rw [ctag_position _ x hx]; exact lookup_position v2, by simp [positionImpl],
       run_position v2 name b hv.sel hv.range, by simp⟩
   · exact ⟨fun x hx => by rw [ctag_channelLock _ x hx]; exact matchesName_outName _, by simp [channelLockImpl],
-      run_channelLock b, by simp⟩
+      (run_channelLock b).ctx, by simp⟩
   · exact ⟨fun x hx => by rw [ctag_jump _ x hx]; exact matchesName_outName _, by simp [jumpImpl],
-      run_jump b, by simp⟩
+      (run_jump b).ctx, by simp⟩
   · exact ⟨fun x hx => by rw [ctag_divergence _ x hx]; exact matchesName_outName _, by simp [divergenceImpl],
-      run_divergence b, by simp⟩
+      (run_divergence b).ctx, by simp⟩
   · exact Or.inr ⟨rfl, numField "width" b.width (by simp [ObjectsBlock.toObj]) (by simp [objectsDefaults])⟩
   · exact Or.inr ⟨rfl, numField "height" b.height (by simp [ObjectsBlock.toObj]) (by simp [objectsDefaults])⟩
   · exact Or.inr ⟨rfl, numField "depth" b.depth (by simp [ObjectsBlock.toObj]) (by simp [objectsDefaults])⟩
@@ -432,9 +413,9 @@ theorem objPs_fields (v2 : Bool) (name : String) (b : ObjectsBlock) (hv : Valid 
   · exact Or.inr ⟨rfl, boolField "cartesian" b.cartesian (by simp [ObjectsBlock.toObj]) (by simp [objectsDefaults])⟩
   · exact Or.inr ⟨rfl, boolField "screenRef" b.screenRef (by simp [ObjectsBlock.toObj]) (by simp [objectsDefaults])⟩
   · exact ⟨fun x hx => by rw [ctag_zones _ x hx]; exact matchesName_outName _, by simp [zoneImpl],
-      run_zones b, by simp⟩
+      (run_zones b).ctx, by simp⟩
   · exact ⟨fun x hx => by rw [ctag_gain v2 _ x hx]; exact matchesName_outName _, by simp [gainImpl],
-      run_gain v2 b, by simp⟩
+      (run_gain v2 b).ctx, by simp⟩
   · exact Or.inr ⟨rfl, .leaf (.int b.importance), by simp [ObjectsBlock.toObj],
       fun _ => lift_roundtrip _ _ (intCodec_roundtrip _), by simp [objectsDefaults]⟩
 
